@@ -101,6 +101,17 @@ const DECL_LINES: &[&str] = &[
     "Zp :: blob(*A) { a: *A }\nzp1: Zp(int, int) = Zp { a: 1 }",
     "Zp2 :: blob(*A, *B) { a: *A, b: *B }\nzp2: Zp2(int) = Zp2 { a: 1, b: 2 }",
     "Zp3 :: enum(*T)\n    Some *T,\n    None,\nend\nzp3: Zp3(int, str, bool) = Zp3.None",
+    // tuple indices at, just past and before the ends
+    "ztf :: fn do\n    t := (1, 2)\n    t[1]\n    t[2]\n    t[3]\nend",
+    "ztg :: fn do\n    t := (1, \"s\", 2.0)\n    t[3]\n    t[-1]\n    t[0]\nend",
+    "zth :: fn do\n    t := (1,)\n    t[1]\n    t[-0]\nend",
+    "zti :: fn do\n    t := (1, 2)\n    t[-1]\nend",
+    "ztj :: fn do\n    t := (1, 2)\n    t[2]\nend",
+    "ztk :: fn -> int do\n    t := (1, 2, 3)\n    ret t[-2] + t[3]\nend",
+    // several blocks closed on one line
+    "zl1 :: fn do\n    i := 0\n    if i < 3 do loop i < 3 do i += 1 end end\nend",
+    "zl2 :: fn do\n    i := 0\n    if i < 3 do loop i < 3 do i += 1 end else do i = 1 end\nend",
+    "zl3 :: fn do loop do break end end",
     // names declared twice inside one declaration
     "Zd :: enum\n    A,\n    A,\nend",
     "Zd2 :: blob(*T, *T) { a: *T }",
